@@ -66,6 +66,54 @@ ABI_FLAVOURS = {"glibc": ABI_COMMON, "owl": ABI_COMMON + ABI_OW, "alt": ABI_COMM
                 "suse": ABI_COMMON + ABI_OW + ABI_SUSE}
 
 
+# configure's SYMVER_FLOOR for other hosts (build-aux/scripts/compute-symver-floor over lib/libcrypt.minver): the oldest
+# glibc symbol version binaries of that platform can have bound - glibc's libcrypt ABI baselines, written down here.
+FLOORS = [("linux-gnu", "x86_64", "GLIBC_2.2.5"), ("linux-gnu", "i686", "GLIBC_2.0"), ("linux-gnu", "i386", "GLIBC_2.0"),
+          ("linux-gnu", "aarch64", "GLIBC_2.17"), ("linux-gnu", "powerpc64le", "GLIBC_2.17"),
+          ("linux-gnu", "powerpc64", "GLIBC_2.3"), ("linux-gnu", "powerpc", "GLIBC_2.0"), ("linux-gnu", "s390x", "GLIBC_2.2"),
+          ("linux-gnu", "s390", "GLIBC_2.0"), ("linux-gnu", "riscv64", "GLIBC_2.27"), ("linux-gnu", "riscv32", "GLIBC_2.33"),
+          ("linux-gnueabihf", "armv7l", "GLIBC_2.4"), ("linux-gnueabi", "arm", "GLIBC_2.4"), ("linux-gnu", "sparc64", "GLIBC_2.0"),
+          ("linux-gnu", "sparc", "GLIBC_2.0"), ("linux-gnu", "alpha", "GLIBC_2.0"), ("linux-gnu", "mips", "GLIBC_2.0"),
+          ("linux-gnuabi64", "mips64el", "GLIBC_2.0"), ("linux-gnu", "ia64", "GLIBC_2.0"), ("linux-gnu", "hppa", "GLIBC_2.0"),
+          ("linux-gnu", "sh4", "GLIBC_2.0"), ("linux-gnu", "m68k", "GLIBC_2.0"), ("linux-gnu", "microblaze", "GLIBC_2.18"),
+          ("linux-gnu", "nios2", "GLIBC_2.21"), ("linux-gnu", "csky", "GLIBC_2.29"), ("linux-gnu", "arc", "GLIBC_2.32"),
+          ("linux-gnu", "or1k", "GLIBC_2.35"), ("linux-gnu", "tilegx", "GLIBC_2.12"), ("linux-gnu", "loongarch64", "GLIBC_2.36"),
+          ("gnu", "i686", "GLIBC_2.2.6"), ("gnu", "x86_64", "GLIBC_2.38"), ("kfreebsd-gnu", "i686", "GLIBC_2.3"),
+          ("linux-musl", "x86_64", "XCRYPT_2.0"), ("freebsd13.0", "x86_64", "XCRYPT_2.0"), ("darwin21", "aarch64", "XCRYPT_2.0")]
+GLIBC_COMPAT = ["crypt", "crypt_r", "encrypt", "encrypt_r", "setkey", "setkey_r", "fcrypt"]
+
+
+def floors(acc):
+    scr = os.path.join(build.REPO, "build-aux", "scripts")
+    env = dict(os.environ, LC_ALL="C")
+    maps = {}
+    for host_os, cpu, want in FLOORS:
+        p = subprocess.run(["perl", "-I", scr, os.path.join(scr, "compute-symver-floor"),
+                            os.path.join(build.REPO, "lib", "libcrypt.minver"), host_os, cpu],
+                           stdout=subprocess.PIPE, stderr=subprocess.PIPE, text=True, env=env)
+        got = p.stdout.strip().splitlines()[-1] if p.stdout.strip() else ""
+        acc.count("evaluations")
+        acc.count("floors_checked")
+        acc.cls(("floor", cpu, host_os))
+        if p.returncode != 0 or got != want:
+            acc.violation("%s/symver-floor/%s-%s" % (PID, cpu, host_os),
+                          "configure for %s-%s would export the glibc compatibility symbols from %r; binaries of that "
+                          "platform bind %s (rc=%s %s)" % (cpu, host_os, got, want, p.returncode, p.stderr[-200:]), None)
+            continue
+        if want.startswith("GLIBC") and want not in maps:
+            q = subprocess.run(["perl", "-I", scr, os.path.join(scr, "gen-libcrypt-map"), "SYMVER_MIN=GLIBC_2.0",
+                                "SYMVER_FLOOR=" + want, "COMPAT_ABI=yes", os.path.join(build.REPO, "lib", "libcrypt.map.in")],
+                               stdout=subprocess.PIPE, stderr=subprocess.PIPE, text=True, env=env)
+            maps[want] = q.stdout
+            m = re.search(r"(?ms)^%s\s*\{(.*?)^\}" % re.escape(want), q.stdout)
+            node = m.group(1) if m else ""
+            for sym in GLIBC_COMPAT:
+                acc.count("evaluations")
+                if not re.search(r"(?m)^\s*%s;\s*$" % sym, node):
+                    acc.violation("%s/symbol-missing/floor-%s/%s" % (PID, want, sym),
+                                  "version script for SYMVER_FLOOR=%s does not export %s@%s" % (want, sym, want), None)
+
+
 def build_abi(abi):
     """shared library as configure --enable-obsolete-api=<abi> builds it -> (abi, {(sym, ver): @|@@} or None, error)"""
     tree = build.Tree()
@@ -202,6 +250,8 @@ def run(tier):
             elif syms[(sym, ver)] != dflt:
                 acc.violation("%s/symbol-default-changed/%s/%s@%s" % (PID, abi, sym, ver),
                               "%s%s%s became %s%s%s" % (sym, dflt, ver, sym, syms[(sym, ver)], ver), None)
+    # (2d) other platforms: the symbol-version floor configure would choose
+    floors(acc)
     # (3) old client
     exe = build.sys_program("vabi.c", "vabi-old-client", libs="-L/lib/x86_64-linux-gnu -l:libcrypt.so.1")
     lines = client_workload(run_.seed, tier)
@@ -221,6 +271,7 @@ def run(tier):
         "symbol_version_pairs_checked": len(rel),
         "golden_symbol_version_pairs_checked": len(gold),
         "obsolete_api_flavours_built": sorted(ABI_FLAVOURS),
+        "host_platform_floors_checked": int(a.n.get("floors_checked", 0)),
         "flavour_symbol_version_pairs_checked": int(a.n.get("flavour_pairs", 0)),
         "symbol_version_pairs": sorted("%s%s%s" % (s, d, v) for (s, v), d in rel.items()),
         "client_transcript_lines_compared": int(a.n.get("lines_compared", 0)),
